@@ -27,6 +27,7 @@ func init() {
 		},
 		Strata: []fw.Stratum{
 			{Name: "all-sequences-len<=2", N: fw.Const(c05ExhaustiveCount, c05ExhaustiveCount), Run: c05Exhaustive, Exhaustive: true},
+			{Name: "all-sequences-len=3", N: fw.Const(0, c05NumStarts*c05AlphabetSize*c05AlphabetSize*c05AlphabetSize), Run: c05Exhaustive3, Exhaustive: true},
 			{Name: "random-sequences", N: fw.Const(600000, 15000000), Run: c05Random},
 		},
 	})
@@ -615,5 +616,14 @@ func c05Random(c *fw.Ctx, i int) {
 			ops = append(ops, c05Op{kind: 3})
 		}
 	}
+	c05Run(c, s, ops, true)
+}
+
+// c05Exhaustive3: every sequence of exactly three operations over the class alphabet (thorough tier only).
+func c05Exhaustive3(c *fw.Ctx, i int) {
+	s := i % c05NumStarts
+	i /= c05NumStarts
+	a := c05AlphabetSize
+	ops := []c05Op{c05AlphaOp(c.R, i/(a*a)), c05AlphaOp(c.R, i/a%a), c05AlphaOp(c.R, i%a)}
 	c05Run(c, s, ops, true)
 }
